@@ -20,7 +20,13 @@ func VerifAssumeInvLocal(ip *Inode, dataStart, max uint64, dirSlots, lnkMax uint
 	verifrt.Assume(k == NF3FREE || (ip.Nlink >= 1 && ip.Nlink <= 40000))
 	verifrt.Assume(ip.Size <= MaxFileSize())
 	nblk := util.RoundUp(ip.Size, disk.BlockSize)
-	verifrt.Assume(ip.ShrinkSize >= nblk && ip.ShrinkSize <= NDIRECT+NBLKBLK+NBLKBLK*NBLKBLK)
+	// the extent: blocks below max(ShrinkSize, blocks of Size) may be present. (Write grows Size without
+	// touching ShrinkSize, so ShrinkSize < nblk is reachable and means "not shrinking".)
+	ext := ip.ShrinkSize
+	if nblk > ext {
+		ext = nblk
+	}
+	verifrt.Assume(ip.ShrinkSize <= NDIRECT+NBLKBLK+NBLKBLK*NBLKBLK)
 	verifrt.Assume(k != nfstypes.NF3DIR || (ip.Size%128 == 0 && ip.Size >= 256 && ip.Size <= dirSlots*128))
 	verifrt.Assume(k != nfstypes.NF3LNK || ip.Size <= lnkMax)
 	verifrt.Assume(k != NF3FREE || ip.Size == 0)
@@ -29,9 +35,9 @@ func VerifAssumeInvLocal(ip *Inode, dataStart, max uint64, dirSlots, lnkMax uint
 		verifrt.Assume(b == 0 || (b >= dataStart && b < max))
 		// I4: no pointer at or beyond the extent
 		if i < NDIRECT {
-			verifrt.Assume(b == 0 || i < ip.ShrinkSize)
+			verifrt.Assume(b == 0 || i < ext)
 		}
 	}
-	verifrt.Assume(ip.blks[INDIRECT] == 0 || ip.ShrinkSize > NDIRECT)
-	verifrt.Assume(ip.blks[DINDIRECT] == 0 || ip.ShrinkSize > NDIRECT+NBLKBLK)
+	verifrt.Assume(ip.blks[INDIRECT] == 0 || ext > NDIRECT)
+	verifrt.Assume(ip.blks[DINDIRECT] == 0 || ext > NDIRECT+NBLKBLK)
 }
